@@ -51,9 +51,10 @@ func (e *Source) Value(_ context.Context, t *dials.Type) (reflect.Value, error) 
 		sf := valType.Field(i)
 		envTagVal := sf.Tag.Get(common.DialsEnvTagName)
 		if envTagVal == "" {
-			// dialsenv tag should be populated because dials tag is populated
-			// after flatten mangler and we copy from dials to dialsenv tag
-			panic(fmt.Errorf("empty %s tag for field name %s", common.DialsEnvTagName, sf.Name))
+			// the dials tag (and hence the dialsenv tag copied from it) is
+			// empty when the tags along the field's path consist of
+			// separators only (e.g. `dials:"_"`): there is no variable name
+			return reflect.Value{}, fmt.Errorf("empty %s tag for field name %s", common.DialsEnvTagName, sf.Name)
 		}
 
 		if e.Prefix != "" {
